@@ -1,4 +1,5 @@
 import Qvnt.Props.C14
+import Qvnt.Props.Code.C14
 open Qvnt
 #print axioms C14_new
 #print axioms C14_new_zero
@@ -11,3 +12,6 @@ open Qvnt
 #print axioms C14_vreg_length
 #print axioms C14_grow
 #print axioms C14_shrink
+#print axioms C14_code_with_state
+#print axioms C14_code_shrink
+#print axioms C14_code_tensor
